@@ -90,6 +90,8 @@ def cli_case(case):
             files["setup.py"] = files["setup.py"] + "\n" + rng.choice(seeds[cid])
         if case.get("manifest_text") is not None:
             files[case["manifest"]] = case["manifest_text"]
+        for rel, text in (case.get("more_manifests") or {}).items():
+            files[rel] = text
         if case.get("legacy"):
             # a requirements file in a legacy encoding (the reader accepts what chardet recognises), the foreign bytes far from the end
             head = {"cp1251": "# зависимости проекта, не редактировать вручную; список пакетов для сборки и развёртывания\n".encode("cp1251"),
@@ -148,6 +150,11 @@ def search(ctx):
                     ("pyproject.toml", '[project]\nname = "x"\nversion = "0.1"\ndependencies = [\n    "requests",\n]'),
                     ("setup.py", 'from setuptools import setup\n\nsetup(\n    name="x",\n    install_requires=[\n        "requests",\n    ],\n)')]:
         cases.append({"codemod": "pixee:python/use-defusedxml", "manifest": m, "manifest_text": text, "seed": rng.randint(0, 10**9)})
+    # several manifests, the first one(s) in discovery order decline: the one that takes the package is reached by falling through
+    DECLINING = {"pyproject.toml": '[project]\nname = "x"\nversion = "0.1"\n', "setup.py": 'from setuptools import setup\n\nREQUIRES = ["requests"]\nsetup(name="x", install_requires=REQUIRES)\n'}
+    for more in [{"pyproject.toml": DECLINING["pyproject.toml"]}, {"setup.py": DECLINING["setup.py"]}, dict(DECLINING)]:
+        for m, text in [("requirements.txt", "requests\n"), ("setup.cfg", "[options]\ninstall_requires =\n    requests\n")]:
+            cases.append({"codemod": "pixee:python/use-defusedxml", "manifest": m, "manifest_text": text, "more_manifests": more, "seed": rng.randint(0, 10**9)})
     for c, r in zip(cases, impl.pool_map(cli_case, cases)):
         if r[0] != "ok":
             ctx.broke("c04 cli harness", r[1]); continue
